@@ -114,9 +114,9 @@ def stepPromote (x : Inst) (tok cid : Nat) (dn : Bool) : R Inst :=
   match x.promoOwed with
   | some t =>
     if t ≠ tok then reject s!"instance {x.id}: promotion callback with token {tok}, term token {t}"
-    else if dn ∧ x.flag ∧ x.termTok = tok then reject s!"instance {x.id}: promotion context already cancelled while the term is in progress"
+    else if dn ∧ x.flag ∧ x.termTok = tok ∧ ¬ x.stopPendingTrans ∧ ¬ x.ctxCancelled then reject s!"instance {x.id}: promotion context already cancelled while the term is in progress"
     else pure { x with promoOwed := none, promotes := x.promotes + 1,
-                       ctxs := { cid := cid, tok := tok, cancelled := dn, termOver := !(x.flag && x.termTok == tok) } :: x.ctxs }
+                       ctxs := { cid := cid, tok := tok, cancelled := dn, termOver := !(x.flag && x.termTok == tok) || x.stopPendingTrans || x.ctxCancelled } :: x.ctxs }
   | none => reject s!"instance {x.id}: promotion callback that was not dispatched"
 
 def stepCtxDone (x : Inst) (cid : Nat) : R Inst :=
@@ -226,7 +226,8 @@ def step (s : Sys) (te : TEv) : R Sys :=
             pure { s1 with st := s1.st.set { x with stops := x.stops.filter (·.n ≠ n), stopPendingTrans := false } }
           else
           -- (a Start that succeeded while this call was waiting began a new run: `running` again; the flag is the new run's)
-          if (x.flag ∧ ¬ x.running) ∨ x.stopPendingTrans then reject s!"instance {i}: a stop call returns while the flag is raised"
+          -- (a newer stop call, issued while this one was in its critical section, may still be waiting for its own)
+          if (x.flag ∧ ¬ x.running) ∨ (x.stopPendingTrans ∧ (x.stops.head?.map (·.n)) = some n) then reject s!"instance {i}: a stop call returns while the flag is raised"
           else
             let done := (match k with | .stopctx _ _ _ _ => r == .ok && !x.running | _ => false)
             let x' := { x with stops := x.stops.filter (·.n ≠ n), ctxNil := x.ctxNil || done }
